@@ -285,7 +285,8 @@ def pipeline_trees(res, seed, n_progs, names):
 
   def hooked(n):
     out = orig(n)
-    captured.append((n, out))
+    # project at capture time: lookup caches (_name2item) of `out` are filled lazily later and are part of repr/keys
+    captured.append((n, out, U.proj(n), U.proj(out), U.monitor(n, out, names)[0]))
     return out
 
   cases = []
@@ -305,8 +306,7 @@ def pipeline_trees(res, seed, n_progs, names):
         continue
       units = [c for c in captured if isinstance(c[0], pytd.TypeDeclUnit)]
       small = [c for c in captured if not isinstance(c[0], pytd.TypeDeclUnit)]
-      for inp, outp in units[-1:] + small[:3]:
-        probs, _ = U.monitor(inp, outp, names)
+      for inp, outp, pi, po, probs in units[-1:] + small[:3]:
         n_mon += 1
         mon_problems += [(i,) + p for p in probs]
         pytd_utils.CanonicalOrdering = orig
@@ -315,7 +315,7 @@ def pipeline_trees(res, seed, n_progs, names):
           out2 = canon_impl(inp2)
         finally:
           pytd_utils.CanonicalOrdering = hooked
-        pi, po, pi2, po2 = U.proj(inp), U.proj(outp), U.proj(inp2), U.proj(out2)
+        pi2, po2 = U.proj(inp2), U.proj(out2)
         if not probs and po != po2:
           violation_once(res, "canon-not-permutation-invariant:pipeline-tree",
                         "a tree emitted by the real pipeline canonicalises differently after a deep shuffle",
@@ -638,7 +638,12 @@ def shrink_program(src, a, b, budget_s):
     body = ast.parse(src).body
   except SyntaxError:
     return src, True
-  stmts = [ast.get_source_segment(src, n) for n in body]
+  src_lines = src.split("\n")
+
+  def seg(n):      # whole statement incl. decorators (get_source_segment drops them)
+    first = min([n.lineno] + [d.lineno for d in getattr(n, "decorator_list", [])])
+    return "\n".join(src_lines[first - 1:n.end_lineno])
+  stmts = [seg(n) for n in body]
   chunk = max(1, len(stmts) // 2)
   while chunk >= 1 and time.time() < t_end:
     i = 0
@@ -703,6 +708,7 @@ def e2e_finish(res, th, box, progs, cfgs, feats):
   mon_problems = []
   mon_stats = collections.Counter()
   oracle_problems = []
+  diffs = []
   msg_feats = collections.Counter()
   stub_feats = collections.Counter()
   err_names = collections.Counter()
@@ -743,9 +749,14 @@ def e2e_finish(res, th, box, progs, cfgs, feats):
         which = [k for k in ("status", "pyi", "errors", "pickle") if a.get(k) != b.get(k)]
         if which:
           n_diff += 1
-          report_difference(res, p, ref, c, which, b.get("position"))
+          diffs.append((p, c, which, b.get("position")))
         distinct = True
     res.count(("prog", p["src"]) if distinct else None)
+  # report the differences with the shortest histories first (smallest replay)
+  hist_len = lambda d: len(slim_job(ref, d[0]["id"])["job"]["order"]) + len(slim_job(d[1], d[0]["id"], d[3])["job"]["order"]) \
+      + len(d[1]["job"]["warmup"])
+  for p, c, which, pos in sorted(diffs, key=hist_len):
+    report_difference(res, p, ref, c, which, pos)
   res.extra["error_message_surface(programs_with)"] = dict(msg_feats)
   res.extra["stub_surface(programs_with)"] = dict(stub_feats)
   res.extra["error_classes_reported"] = dict(err_names)
